@@ -1,6 +1,6 @@
 """C19 — geometric primitives and the skewness measure obey their contracts.
 
-Three streams (DESIGN.md §7 C19):
+Four streams (DESIGN.md §7 C19):
 
 1. exact  — `geo <op> <dyadic rationals>`: real `f64` operators (hcimpl) vs the Lean model over `Rat`
    (hcmodel), outputs must be IDENTICAL; in addition every reply of the implementation is compared with an
@@ -16,6 +16,12 @@ Three streams (DESIGN.md §7 C19):
    3-D embedding, tolerance 1e-9), and a TOLERANCE tie (1e-12) of the model's `corners` + `skewOfAngles`
    to the implementation: the model lists the corner triples, python measures the angles with the Rust
    formula in double precision, the model evaluates the formula over `Rat`.
+4. flop   — `geo flop f64|f32 add|sub|mul|div <bits> <bits>`: ONE hardware operation, exact value of the result,
+   compared EXACTLY with the idealised IEEE rounding `rnd 53` / `rnd 24` (round to nearest even, unbounded
+   exponent; Lean `Model/Rounding.lean`): with the same definition in python Fractions on every sample
+   (implementation only) and with the Lean definition itself on a sub-sample (both drivers).  Operands over
+   +-2^480 / +-2^60 with results in the normal range (no overflow, no underflow), exact ties, near-cancellation,
+   small integers and dyadics.  This is what makes the rounding theorems of Props/C19b.lean speak about the machine.
 """
 import hashlib
 import math
@@ -27,7 +33,7 @@ import hv
 from hv import Case
 
 SPEC = {
-    "lean_modules": ["Honeycomb.Props.C19"],
+    "lean_modules": ["Honeycomb.Props.C19", "Honeycomb.Lemmas.Rounding", "Honeycomb.Props.C19b"],
     "required_theorems": [
         "C19_v2_sub_self", "C19_v2_add_sub_cancel", "C19_v2_addAssign_eq", "C19_v2_subAssign_eq",
         "C19_v3_subAssign_eq", "C19_v2_dot_comm", "C19_v3_dot_comm",
@@ -40,6 +46,12 @@ SPEC = {
         "C19_fl_v3_cross_antisymm", "C19_fl_p2_average_between", "C19_faceSkew_start_dart",
         "C19_skew_mem_Ico", "C19_skew_eq_zero_of_equiangular", "C19_skew_rotate", "C19_skew_reverse",
         "C19_faceSkew_similarity",
+        # round 2: the rounding model is satisfied by idealised IEEE arithmetic (Lemmas/Rounding, Props/C19b)
+        "rnd_zero", "rnd_neg", "rnd_monotone", "rnd_rel_error", "rnd_of_representable",
+        "rnd_fixes_small_integers", "rnd_idempotent", "representable_rnd", "rnd_mul_pow2",
+        "C19b_roundModel", "C19b_roundModel_f64", "C19b_roundModel_f32", "C19b_rnd_odd", "C19b_rnd_monotone",
+        "C19b_rep", "C19b_v2_sub_self", "C19b_v2_add_sub_bound", "C19b_orient_sign", "C19b_v3_cross_dot_bound",
+        "C19b_v3_cross_antisymm", "C19b_p2_average_between",
     ],
     "trusted_base": [
         "Lean 4.33 kernel; axioms propext, Classical.choice, Quot.sound only",
@@ -49,10 +61,13 @@ SPEC = {
         "Rust harness /verif/harness/hcimpl/src/geo.rs (operator table over the real types) and tools/props/c19.py "
         "(exact rational oracle; python Fraction)",
         "the float clauses are evaluated on the implementation only (sampling), under no model",
+        "Model/Rounding.lean (executable rnd over Rat) tied to the hardware by `geo flop` on both drivers",
     ],
     "assumptions": [
-        "rounding theorems assume the hypothesis structure RoundModel fl u (relative error <= u < 1 per operation; "
-        "IEEE-754 round-to-nearest without overflow/underflow satisfies it with u = 2^-53 / 2^-24 - not proved)",
+        "rounding theorems are proved under the hypothesis structure RoundModel fl u (relative error <= u < 1 per "
+        "operation) and the structure is proved to hold for rnd p (idealised IEEE round-to-nearest-even, unbounded exponent) "
+        "with u = 2^-p; that the machine arithmetic is rnd 53 / rnd 24 away from overflow/underflow is validated by the "
+        "flop stream",
         "skewness range theorem assumes the corner angles lie in ]0,pi[ and add up to (n-2)pi (angle sum of a "
         "simple polygon - hypothesis, not in Mathlib for n-gons)",
         "hypot/sqrt/acos are outside the model: unit_dir / normal_dir are modelled by radicand + direction and "
@@ -65,10 +80,14 @@ SPEC = {
             "near-collinear triples within a few ulps of the rounding band); skew: convex polygons inscribed in random "
             "ellipses, corner angles in [0.05, pi-0.05]. distinct_nontrivial = distinct implementation transcripts.",
     "not_proved": [
-        "IEEE-754 binary32/binary64 satisfy RoundModel (hypothesis of every C19_fl_* bound), rounding is odd "
-        "(hypothesis of C19_fl_v3_cross_antisymm) and monotone with representable inputs (hypotheses of "
-        "C19_fl_p2/p3_average_between): true of round-to-nearest without overflow/underflow, not proved (no IEEE theory "
-        "in Mathlib); validated by the float stream",
+        "that the HARDWARE f64/f32 + - * / are the idealised rounding rnd 53 / rnd 24 (round to nearest even, unbounded "
+        "exponent): validated exactly by the flop stream (python definition on every sample, the Lean definition on a "
+        "sub-sample), not proved. Given that, every C19_fl_* theorem is unconditional (Props/C19b: RoundModel (rnd p) 2^-p, "
+        "rnd odd, monotone, exact on p-bit numbers - all proved)",
+        "overflow, underflow and subnormal results are excluded (rnd has an unbounded exponent range), as in the "
+        "property's quantifier; nothing is claimed there",
+        "Sterbenz-style exact subtraction is not proved (not needed: fl(v-v)=0 follows from rnd 0 = 0, the (v+u)-v bound "
+        "from the relative error)",
         "bit-for-bit clauses about the compiled code (compound = binary, dot symmetric, average symmetric): proved for "
         "the model in every arithmetic (rfl for any coordinate type / FlR fl for any fl), validated on f64/f32",
         "sign of zero: cross(a,b) and -cross(b,a) differ in the sign of zero components (+0 vs -0); compared as values",
@@ -840,9 +859,10 @@ def regular_polygon(rng, n):
     return [(cx + r * math.cos(ph + 2 * math.pi * i / n), cy + r * math.sin(ph + 2 * math.pi * i / n)) for i in range(n)]
 
 
-def skew_line(ty, start, pts, dim3=False):
+def skew_line(ty, start, pts, dim3=False, glued=False):
     flat = [rnd(ty, c) for p in pts for c in p]
-    return f"geof {ty} {'skew3' if dim3 else 'skew2'} {start}" + "".join(" " + f2hex(ty, x) for x in flat)
+    op = "skew3g" if glued else "skew3" if dim3 else "skew2"
+    return f"geof {ty} {op} {start}" + "".join(" " + f2hex(ty, x) for x in flat)
 
 
 def skew_cases(count, rng):
@@ -868,10 +888,17 @@ def skew_cases(count, rng):
         p3 = [tuple(o[i] + x * e1[i] + y * e2[i] for i in range(3)) for x, y in pts]
         lines.append(skew_line("f64", 1, p3, dim3=True)); tags.append("3-D embedding")
         lines.append(skew_line("f64", rng.randint(1, n), [(x, y, 0.0) for x, y in pts], dim3=True)); tags.append("3-D z=0")
+        # the same face shared by two volumes (3-linked): start on the first side, then on the mirrored side
+        lines.append(skew_line("f64", 1, p3, glued=True)); tags.append("3-D glued = free")
+        lines.append(skew_line("f64", rng.randint(1, n), p3, glued=True)); tags.append("3-D glued, first side")
+        lines.append(skew_line("f64", rng.randint(n + 1, 2 * n), p3, glued=True)); tags.append("3-D glued, mirrored side")
         lines.append(skew_line("f32", 1, pts)); tags.append("f32")
         cases.append(Case(f"skew-{k}", lines, oracle="skew", meta={"sig": "skewness", "tags": tags, "pts": pts, "n": n}))
         reg = regular_polygon(rng, n)
-        cases.append(Case(f"reg-{k}", [skew_line("f64", rng.randint(1, n), reg), skew_line("f32", 1, reg)], oracle="regular",
+        reg3 = [(x, y, 0.0) for x, y in reg]
+        cases.append(Case(f"reg-{k}", [skew_line("f64", rng.randint(1, n), reg), skew_line("f32", 1, reg),
+                                       skew_line("f64", rng.randint(1, n), reg3, dim3=True),
+                                       skew_line("f64", rng.randint(1, 2 * n), reg3, glued=True)], oracle="regular",
                           meta={"sig": "skewness-regular", "n": n}))
     return cases
 
@@ -912,6 +939,11 @@ def oracle_skew(case, li):
         case.meta["negative"] = sum(1 for v in vals if v < 0)
         return "; ".join(fails) or None
     base = vals[0]
+    tags = case.meta["tags"]
+    if "3-D glued = free" in tags:
+        i, j = tags.index("3-D embedding"), tags.index("3-D glued = free")
+        if li[i] != li[j]:
+            fails.append(f"skewness of a face shared by two volumes ({vals[j]}) differs from the free face on the same points ({vals[i]})")
     for tag, v in zip(case.meta["tags"], vals):
         tol = 1e-3 if tag == "f32" else SKEW_TOL
         if not (-1e-12 <= v <= 1 + 1e-12) and tag != "f32":
@@ -985,11 +1017,124 @@ def skew_tie(cases):
 
 
 # ---------------------------------------------------------------------------------------------
+# stream 4: the hardware arithmetic IS the idealised rounding `rnd 53` / `rnd 24`
+# ---------------------------------------------------------------------------------------------
+
+PBITS = {"f64": 53, "f32": 24}
+
+
+def ilog2_fr(a):
+    """floor(log2 a), a > 0 — same definition as HC.Geo.ilog2 (bit lengths + one comparison)"""
+    k = (a.numerator.bit_length() - 1) - (a.denominator.bit_length() - 1)
+    return k if Fr(2) ** k <= a else k - 1
+
+
+def round_even_fr(m):
+    f = m.numerator // m.denominator
+    r = m - f
+    if r < Fr(1, 2):
+        return f
+    if r > Fr(1, 2):
+        return f + 1
+    return f if f % 2 == 0 else f + 1
+
+
+def rnd_fr(p, x):
+    """HC.Geo.rnd: round to nearest, ties to even, p significant bits, unbounded exponent"""
+    if x == 0:
+        return Fr(0)
+    if x < 0:
+        return -rnd_fr(p, -x)
+    e = ilog2_fr(x) - (p - 1)
+    return round_even_fr(x / Fr(2) ** e) * Fr(2) ** e
+
+
+def flop_line(ty, op, a, b):
+    return f"geo flop {ty} {op} {f2hex(ty, a)} {f2hex(ty, b)}"
+
+
+def flop_pairs(rng, ty, op, count):
+    """operand pairs: random normal floats over many decades (results stay normal: no overflow, no
+    underflow), same-binade operands, ties-to-even, near-cancellation, small integers and dyadics"""
+    R = {"f64": 480, "f32": 60}[ty]
+    P = PBITS[ty]
+    out = []
+    for i in range(count):
+        mode = rng.random()
+        k = rng.randint(-R, R)
+        if mode < 0.30:      # independent scales
+            a, b = sfloat(rng, ty, k), sfloat(rng, ty, rng.randint(-R, R))
+        elif mode < 0.50:    # neighbouring binades: every bit of both operands matters
+            a, b = sfloat(rng, ty, k), sfloat(rng, ty, max(-R, min(R, k + rng.randint(-3, 3))))
+        elif mode < 0.70:    # exact ties
+            if op in ("add", "sub"):
+                a = sfloat(rng, ty, k)
+                # half an ulp of a (odd multiples too): the exact result is a midpoint
+                b = rng.choice([1.0, -1.0]) * math.ldexp(rng.choice([1.0, 3.0, 5.0]), k - P)
+            elif op == "mul":
+                h1, h2 = (27, 27) if ty == "f64" else (12, 13)
+                ma = rng.getrandbits(h1 - 1) | (1 << (h1 - 1)) | 1
+                mb = rng.getrandbits(h2 - 1) | (1 << (h2 - 1)) | 1
+                a = rng.choice([1.0, -1.0]) * math.ldexp(float(ma), k // 2)
+                b = rng.choice([1.0, -1.0]) * math.ldexp(float(mb), rng.randint(-R // 2, R // 2))
+            else:            # division: quotient exactly representable, or 1/3-like
+                b = sfloat(rng, ty, rng.randint(-R // 2, R // 2))
+                qf = float(rng.getrandbits(P // 2) | 1)
+                a = rnd(ty, b * qf) if rng.random() < 0.5 else sfloat(rng, ty, k)
+        elif mode < 0.88:    # near-cancellation (a - b, a + (-b)): Sterbenz region and just outside
+            a = sfloat(rng, ty, k)
+            b = nudge(ty, a, rng.randint(-8, 8)) if rng.random() < 0.6 else rnd(ty, a * rng.choice([0.5, 0.75, 1.25, 1.5, 2.0, 0.999]))
+            if op == "add":
+                b = -b
+        else:                # small integers and dyadics
+            a = rnd(ty, float(rng.randint(-4096, 4096)) / 2 ** rng.randint(0, 6))
+            b = rnd(ty, float(rng.randint(-4096, 4096)) / 2 ** rng.randint(0, 6))
+        if op == "div" and b == 0.0:
+            b = 1.0
+        out.append((a, b))
+    return out
+
+
+def flop_cases(count, rng, per_case=25):
+    cases = []
+    for ty in ("f64", "f32"):
+        for op in ("add", "sub", "mul", "div"):
+            pairs = flop_pairs(rng, ty, op, count)
+            for i in range(0, len(pairs), per_case):
+                chunk = pairs[i:i + per_case]
+                cases.append(Case(f"flop-{ty}-{op}-{i // per_case}", [flop_line(ty, op, a, b) for a, b in chunk],
+                                  oracle="flop", meta={"sig": f"flop:{ty}:{op}", "ty": ty, "op": op, "pairs": chunk}))
+    return cases
+
+
+def oracle_flop(case, li):
+    """hardware result == rnd_p(exact result), exactly"""
+    if len(li) != len(case.lines):
+        return f"driver produced {len(li)} lines for {len(case.lines)} commands"
+    ty, op = case.meta["ty"], case.meta["op"]
+    p = PBITS[ty]
+    fails = []
+    for (a, b), ln, raw in zip(case.meta["pairs"], case.lines, li):
+        x, y = Fr(a), Fr(b)
+        ex = x + y if op == "add" else x - y if op == "sub" else x * y if op == "mul" else x / y
+        want = "ok " + rs(rnd_fr(p, ex))
+        if raw != want:
+            fails.append(f"{ln!r}: hardware {raw[:60]!r}, rnd {p} of the exact result {want[:60]!r}")
+        elif ex != 0 and rnd_fr(p, ex) != ex:
+            case.meta["inexact"] = case.meta.get("inexact", 0) + 1
+            m = ex / Fr(2) ** (ilog2_fr(abs(ex)) - (p - 1))
+            if (m - (m.numerator // m.denominator)) == Fr(1, 2):
+                case.meta["ties"] = case.meta.get("ties", 0) + 1
+    return "; ".join(fails[:3]) or None
+
+
+# ---------------------------------------------------------------------------------------------
 
 def run(tier, seed):
     rng = random.Random(seed)
     n_exact, n_float, n_skew = (1500, 1000, 600) if tier == "quick" else (20000, 15000, 6000)
     n_scaled = 500 if tier == "quick" else 6000
+    n_flop, n_flop_lean = (6000, 600) if tier == "quick" else (100000, 8000)
     parts = []
     ex = exact_cases(n_exact, rng)
     r1 = hv.campaign(ex, oracle_exact)
@@ -1013,6 +1158,16 @@ def run(tier, seed):
                    "the range clause is checked up to 1e-12"]
     parts.append(("skewness: convex polygons 3..12 sides, implementation only", r3))
     parts.append(("skewness tie (tolerance)", skew_tie(sk)))
+    # hardware + - * / against the idealised rounding: python definition on everything (implementation only),
+    # the Lean definition itself on a sample (both drivers, exact diff)
+    fp = flop_cases(n_flop, rng)
+    r5 = impl_campaign(fp, oracle_flop)
+    r5["notes"] = [f"flop: {sum(len(c.lines) for c in fp)} hardware operations compared with rnd 53 / rnd 24 (python Fractions); "
+                   f"{sum(c.meta.get('inexact', 0) for c in fp)} inexact results, of which {sum(c.meta.get('ties', 0) for c in fp)} exact ties (to even)"]
+    parts.append(("flop: f64/f32 + - * / vs rnd 53 / rnd 24 (python definition), implementation only", r5))
+    fs = flop_cases(n_flop_lean, rng)
+    r6 = hv.campaign(fs, oracle_flop)
+    parts.append(("flop: f64/f32 + - * / vs the Lean rnd (hcmodel), exact", r6))
     return hv.merge_results(parts)
 
 
